@@ -223,7 +223,7 @@ pub(crate) mod b {
         let kinds = [('*', Marker::Circle), ('o', Marker::OpenCircle), ('O', Marker::BigOpenCircle)];
         let mut n = 0u64;
         for (ch, marker) in kinds {
-            for (step, lch) in [((1i32, 0i32), '-'), ((-1, 0), '-'), ((0, 1), '|'), ((0, -1), '|')] {
+            for (step, lch) in [((1i32, 0i32), '-'), ((-1, 0), '-'), ((0, 1), '|'), ((0, -1), '|'), ((1, 1), '\\'), ((-1, -1), '\\'), ((1, -1), '/'), ((-1, 1), '/')] {
                 for len in 2..=4i32 {
                     for (ox, oy) in [(6i32, 6i32), (15, 9)] {
                         let mut puts = vec![(oy as usize, ox as usize, ch)];
